@@ -44,6 +44,11 @@ Definition env_of (v : N) : N := v / 4 - 1.
 Definition store_val (c : N) : N := 8 * (c + 1).    (* address of the storage of container c *)
 Definition node_val (n : N) : N := n + 1.           (* LIST_HEAD value: pointer to node n; 0 = null *)
 
+Global Arguments env_val : simpl never.
+Global Arguments env_of : simpl never.
+Global Arguments store_val : simpl never.
+Global Arguments node_val : simpl never.
+
 (** A debt slot: node and index (index 8 = helping slot). *)
 Definition slot : Type := (N * N)%type.
 Definition slot_loc (sl : slot) : loc := LSlot (fst sl) (snd sl).
